@@ -126,6 +126,29 @@ func VerifReverseRegistry(h *TunnelServiceHandler) (all int, perKey map[any]int)
 	return all, perKey
 }
 
+// VerifReverseListsContain reports whether the given channel is in the handler's
+// global reverse-tunnel list and whether it is in the per-key list of key.
+func VerifReverseListsContain(h *TunnelServiceHandler, key any, ch TunnelChannel) (inAll, inKey bool) {
+	has := func(rc *reverseChannels) bool {
+		if rc == nil {
+			return false
+		}
+		rc.mu.Lock()
+		defer rc.mu.Unlock()
+		for _, e := range rc.chans {
+			if TunnelChannel(e.ch) == ch {
+				return true
+			}
+		}
+		return false
+	}
+	inAll = has(h.reverse)
+	h.mu.RLock()
+	rc := h.reverseByKey[key]
+	h.mu.RUnlock()
+	return inAll, has(rc)
+}
+
 // VerifSender exposes the private flow-control sender for isolated testing.
 type VerifSender interface {
 	Send(data []byte) error
